@@ -210,3 +210,55 @@ Section CliToSrv.
     exact A13.
   Qed.
 End CliToSrv.
+
+(* ================= the executable hypotheses imply the stated ones ================= *)
+Lemma on_time_fromb_ok th w d now : on_time_fromb th w d now = true -> on_time_from th w d now.
+Proof.
+  unfold on_time_fromb, on_time_from. rewrite forallb_forall, Forall_forall. intros H q Hq. specialize (H q Hq). lia.
+Qed.
+
+Lemma hsrc_okb_ok key w s : hsrc_okb key w s = true -> hsrc_ok key w s.
+Proof.
+  destruct s as [|i|dg orcs]; cbn [hsrc_okb hsrc_ok]; [auto| |].
+  - destruct (wd_lookup w i) as [[t dg]|]; [|discriminate]. intros _. exists t, dg. reflexivity.
+  - destruct (open_dgram key dg); [discriminate|]. intros _ ms. discriminate.
+Qed.
+
+Lemma stays_openb_ok T n v : stays_openb T n v = true -> stays_open T n v.
+Proof.
+  unfold stays_openb, stays_open. rewrite andb_true_iff. intros [A B].
+  split; [destruct (t_swept n); [discriminate|reflexivity]|].
+  destruct v; [|exact I|]; apply negb_true_iff in B; exact B.
+Qed.
+
+Lemma hokb_ok P sd th n v : hokb P sd th n v = true -> hok P sd th n v.
+Proof.
+  unfold hokb, hok. cbv zeta. rewrite !andb_true_iff. intros [[[[[A B] C] D] E] F].
+  split; [lia|]. split; [lia|]. split; [apply on_time_fromb_ok; exact C|]. split; [lia|].
+  split; [apply stays_openb_ok; exact E|]. destruct v; try apply hsrc_okb_ok; auto.
+Qed.
+
+Lemma hvalidb_ok e P sd th vs : forall n, hvalidb e P sd th n vs = true -> hvalid e P sd th n vs.
+Proof.
+  induction vs as [|v r IH]; intros n H; [exact I|]. cbn [hvalidb hvalid] in *.
+  apply andb_prop in H as [H1 H2]. split; [apply hokb_ok; exact H1|apply IH; exact H2].
+Qed.
+
+Lemma hnowb_ok P sd th n now : hnowb P sd th n now = true -> hnow P sd th n now.
+Proof.
+  unfold hnowb, hnow. rewrite !andb_true_iff. intros [[A B] C].
+  split; [lia|]. split; [lia|apply on_time_fromb_ok; exact C].
+Qed.
+
+Lemma live_startb_ok k t0 x y : live_startb k t0 x y = true -> live_start k t0 x y.
+Proof.
+  unfold live_startb, live_start, pkt_behindb, pkt_behind, msg_behindb, msg_behind.
+  rewrite !andb_true_iff, !orb_true_iff, !andb_true_iff.
+  intros [[[[[[[[A B] C] D] E] F] G] H] J].
+  split; [apply idle_epb_ok; exact A|]. split; [apply idle_epb_ok; exact B|].
+  split; [destruct (c_pretry x); [reflexivity|discriminate]|]. split; [lia|].
+  split; [destruct (zmem _ _); [discriminate|reflexivity]|].
+  split; [|split; [|split; lia]].
+  - destruct F as [[[[[F1 F2] F3] F4] F5] F6]. repeat split; try lia.
+  - destruct G as [[G1 G2] G3]. repeat split; try lia.
+Qed.
